@@ -149,6 +149,8 @@ type Sim struct {
 	pairs      map[uint64]struct{}
 	lastSite   int32
 	mainDone   atomic.Bool
+	recent     [48]string
+	recentN    int
 }
 
 var (
@@ -774,6 +776,17 @@ func (s *Sim) eligible(buf []*thread) []*thread {
 	return buf
 }
 
+// Recent lists the last scheduling decisions (thread@site), oldest first.
+func (s *Sim) Recent() string {
+	var b strings.Builder
+	n := len(s.recent)
+	for i := max(0, s.recentN-n); i < s.recentN; i++ {
+		b.WriteString(s.recent[i%n])
+		b.WriteByte(' ')
+	}
+	return b.String()
+}
+
 // Dump describes every live thread (for "stuck" diagnostics).
 func (s *Sim) Dump() string {
 	s.mu.Lock()
@@ -904,13 +917,15 @@ func Run(cfg Config, main func()) *Sim {
 		lastSite: -1000,
 	}
 	knob := rand.New(rand.NewPCG(cfg.Seed, 0x6b0b))
-	s.Strategy = cfg.Strategy
-	if s.Strategy == "" {
-		s.Strategy = strategies[knob.IntN(len(strategies))]
+	// every knob is drawn unconditionally, so that overriding one (replay fixes
+	// the strategy) does not shift the others
+	s.Strategy = strategies[knob.IntN(len(strategies))]
+	if cfg.Strategy != "" {
+		s.Strategy = cfg.Strategy
 	}
-	s.poolPolicy = cfg.PoolPolicy
-	if s.poolPolicy < 0 {
-		s.poolPolicy = knob.IntN(3)
+	s.poolPolicy = knob.IntN(3)
+	if cfg.PoolPolicy >= 0 {
+		s.poolPolicy = cfg.PoolPolicy
 	}
 	selMode := uint32(1 + knob.IntN(4))
 	if strings.HasPrefix(s.Strategy, "pct") {
@@ -919,9 +934,9 @@ func Run(cfg Config, main func()) *Sim {
 			s.pctChange = append(s.pctChange, knob.IntN(cfg.EstSteps))
 		}
 	}
-	nStalls := cfg.Stalls
-	if nStalls < 0 {
-		nStalls = knob.IntN(4)
+	nStalls := knob.IntN(4)
+	if cfg.Stalls >= 0 {
+		nStalls = cfg.Stalls
 	}
 	for i := 0; i < nStalls; i++ {
 		s.stallAt = append(s.stallAt, knob.IntN(cfg.EstSteps))
@@ -978,7 +993,7 @@ func Run(cfg Config, main func()) *Sim {
 		}
 		if s.Steps >= s.cfg.MaxSteps {
 			s.StepCap = true
-			s.Err = fmt.Errorf("step cap %d reached: %s", s.cfg.MaxSteps, s.Dump())
+			s.Err = fmt.Errorf("step cap %d reached: %s recent: %s", s.cfg.MaxSteps, s.Dump(), s.Recent())
 			break
 		}
 		onlySpin := true
@@ -1040,6 +1055,8 @@ func Run(cfg Config, main func()) *Sim {
 		}
 		s.last = t
 		s.lastSite = t.site
+		s.recent[s.recentN%len(s.recent)] = fmt.Sprintf("%s@%d", t.idStr, t.site)
+		s.recentN++
 		s.Steps++
 		s.mu.Lock()
 		t.st = stRunning
